@@ -160,7 +160,7 @@ ChooseRequest ==
          \* declarations with a zero-valued / large default differ from the others only in what absent and empty requests yield
          plainDefault == ~d.hasdef \/ d.def \in {<<good>>, <<good, good>>}
          texts == IF d.type = "file" THEN {<<104, 105>>}
-                  ELSE IF ~plainDefault THEN few \cup (IF d.type = "array" THEN {<<SepOf(d.cf)>>} ELSE {})
+                  ELSE IF ~plainDefault THEN few \cup (IF d.type = "array" /\ ~(d.cf = "multi" /\ IsFormat(ef) /\ ~FormatInfo(ef).open) THEN {<<SepOf(d.cf)>>} ELSE {})
                   ELSE IF d.type = "array" THEN ArrayTexts ELSE TextsFor(d.type, d.format)
          keys  == IF d.in = "header" THEN HdrNames ELSE {d.name}
          other == IF d.in = "header" THEN {HdrOther} ELSE QueryOtherKeys
